@@ -319,12 +319,13 @@ fn run_clone(c: &CloneCase, rec: &mut CaseRec) -> Result<(), String> {
     r?;
     rec.level = Some("L2");
     rec.nontrivial = true;
+    rec.class_if(s.inplace && e.source.len() > 8 * 1024 * 1024, match &s.prior { Some(Related::Edited(ed)) => match (ed.len(), ed.first()) { (1, Some(Edit::Move { len, .. })) if *len == 10 * 1024 * 1024 => "big_swap_longer_half_first", (1, _) => "big_swap_shorter_half_first", (2, Some(Edit::Move { at: 0, .. })) => "big_rotation", _ => "big_region_move" }, _ => "big_other" });
     rec.class(format!(
         "clone{}{}{}{}{}{}",
         if c.http { "_http" } else { "_local" },
         if !s.seeds.is_empty() { "_seeds" } else { "" },
         if c.stdin_seed.map(|i| (i as usize) < s.seeds.len()).unwrap_or(false) { "_stdin" } else { "" },
-        if s.inplace { "_inplace" } else if s.prior.is_some() { "_overwrite" } else { "_new" },
+        if s.inplace && e.source.len() > 8 * 1024 * 1024 { "_inplace_over_8MiB" } else if s.inplace { "_inplace" } else if s.prior.is_some() { "_overwrite" } else { "_new" },
         if s.block_dev { "_blockdev" } else { "" },
         if c.verify_output || c.verify_header { "_verify" } else { "" }
     ));
@@ -432,6 +433,39 @@ fn run_compress(c: &CompressCase, rec: &mut CaseRec) -> Result<(), String> {
     Ok(())
 }
 
+/// Large in-place updates: tens of MiB whose regions are swapped / rotated, so that long chains of chunks have to be
+/// set aside while re-ordering — the regime in which an implementation might be tempted to spill to a side file.
+fn big_inplace_strategy() -> impl Strategy<Value = CloneCase> {
+    (any::<u32>(), 0u8..4, prop_oneof![Just(Algo::RollSum), Just(Algo::BuzHash)], any::<bool>()).prop_map(|(seed, layout, algo, http)| {
+        let a = Seg::Random { n: 10 * 1024 * 1024, seed };
+        let b = Seg::Random { n: 10 * 1024 * 1024 + 12_345, seed: seed ^ 0x55 };
+        let c = Seg::Random { n: 3 * 1024 * 1024 + 7, seed: seed ^ 0x77 };
+        // source = what the archive describes; prior = what is on disk
+        let (source, prior_edits): (SourceSpec, Vec<Edit>) = match layout {
+            // halves swapped, longer half first on disk: source = A B, prior = B A
+            0 => (vec![a.clone(), b.clone()], vec![Edit::Move { at: 0, len: 10 * 1024 * 1024, to: 65535 }]),
+            // halves swapped, shorter half first on disk: source = B A, prior = A B
+            1 => (vec![b.clone(), a.clone()], vec![Edit::Move { at: 0, len: 10 * 1024 * 1024 + 12_345, to: 65535 }]),
+            // three regions rotated
+            2 => (vec![a.clone(), c.clone(), b.clone()], vec![Edit::Move { at: 0, len: 10 * 1024 * 1024, to: 65535 }, Edit::Move { at: 0, len: 3 * 1024 * 1024 + 7, to: 30000 }]),
+            // a region moved into the middle plus an insertion
+            _ => (vec![a.clone(), b.clone()], vec![Edit::Move { at: 40000, len: 6 * 1024 * 1024, to: 1000 }, Edit::Insert { at: 20000, data: Seg::Random { n: 300, seed } }]),
+        };
+        let chunker = if algo == Algo::RollSum {
+            ChunkerCfg { algo, bits: 15, min: 16 * 1024, max: 16 * 1024 * 1024, window: 64 }
+        } else {
+            ChunkerCfg { algo, bits: 15, min: 16 * 1024, max: 16 * 1024 * 1024, window: 16 }
+        };
+        CloneCase {
+            scen: Scenario { source, cfg: ArchCfg { chunker, hash_len: 64, comp: Comp::None, buffers: 4 }, seeds: vec![], prior: Some(Related::Edited(prior_edits)), inplace: true, block_dev: false, clone_buffers: 8 },
+            http,
+            stdin_seed: None,
+            verify_output: true,
+            verify_header: false,
+        }
+    })
+}
+
 fn clone_strategy() -> impl Strategy<Value = CloneCase> {
     (scenario_strategy(8, true, true), l2::cli_chunker_strategy(), any::<bool>(), prop_oneof![2 => Just(None), 1 => (0u8..4).prop_map(Some)], any::<bool>(), any::<bool>()).prop_map(|(mut scen, chunker, http, stdin_seed, verify_output, verify_header)| {
         scen.cfg.chunker = chunker;
@@ -465,6 +499,7 @@ impl Prop for C16 {
         let t = cx.tier;
         cx.run_prop("clone", t.pick(1600, 30_000), clone_strategy(), run_clone);
         cx.run_prop("compress", t.pick(1200, 20_000), compress_strategy(), run_compress);
+        cx.run_prop("big_inplace", t.pick(16, 128), big_inplace_strategy(), run_clone);
         let _ = std::fs::remove_dir_all(worker_dir("C16"));
     }
     fn replay(&self, _cx: &mut WorkerCtx, variant: &str, case: &Value) -> Result<(), String> {
